@@ -27,4 +27,18 @@ def pctOK : Bytes → Bool
 /-- pure ASCII -/
 def isAscii (b : Bytes) : Bool := b.all (· < 128)
 
+/-- value of a hex digit -/
+def hexValue (c : UInt8) : UInt8 :=
+  if 48 ≤ c && c ≤ 57 then c - 48 else if 65 ≤ c && c ≤ 70 then c - 55 else c - 87
+
+/-- percent-decoding as a URL consumer does it: `%XX` (two hex digits) is the byte XX, everything else
+    (including a `%` not followed by two hex digits) stands for itself -/
+def pctDecode : Bytes → Bytes
+  | [] => []
+  | [c] => [c]
+  | [c, d] => c :: pctDecode [d]
+  | c :: a :: b :: r =>
+    if c == 37 && isHexDigit a && isHexDigit b then (hexValue a * 16 + hexValue b) :: pctDecode r
+    else c :: pctDecode (a :: b :: r)
+
 end GM.Spec
